@@ -50,6 +50,21 @@ class CSETagMapper(IdentityMapper):
         else:
             return result
 
+    def map_common_subexpression(self, expr):
+        # Avoid creating CSE(CSE(...)): what an existing wrapper holds is
+        # tagged inside, but not wrapped a second time.
+        child = self.rec(expr.child)
+        if type(child) is CommonSubexpression and child is not expr.child:
+            child = child.child
+        if child is expr.child:
+            return expr
+
+        return type(expr)(
+                child,
+                expr.prefix,
+                expr.scope,
+                **expr.get_extra_properties())
+
     map_sum = map_call
     map_product = map_call
     map_quotient = map_call
